@@ -162,7 +162,23 @@ def run_stream(ck, label, cases, extra=()):
     return res, extra_ans
 
 
+def replay(ck):
+    rp = json.load(open(ck.replay_path))['replay']
+    if 'case' not in rp:
+        print('replay: %s names a broken obligation, not an input' % ck.replay_path)
+        return
+    c = GA.case_from_json(rp['case'])
+    res, _ = run_stream(ck, 'replay', [c])
+    c, v, d, e, a = res[0]
+    print('replay: %s\n  model : %s\n  engine: %s\n  verdict: %s %s' % (c['vtl'], a[:400], str(e)[:400], v, str(d)[:300]))
+    if v.startswith('DISAGREE') or v.startswith('REJECT'):
+        ck.violation(finding_key(c, v, d, e), {'script': c['vtl'], 'case': rp['case'], 'verdict': v, 'detail': str(d)[:600]},
+                     '%s: %s' % (v, c['vtl'][:160]))
+
+
 def main(ck):
+    if ck.replay_path:
+        return replay(ck)
     pr = ck.proof('C03')
     q = ck.quick()
     n_main = int(os.environ.get('VERIF_N', 0)) or (200 if q else 4000)
@@ -242,7 +258,7 @@ def main(ck):
         ck.violation(key, {'script': c['vtl'], 'structures': G.structures(c['env']),
                            'data': {k: [[str(x) if x is not None else None for x in r] for r in x['rows']] for k, x in c['env'].items()},
                            'model_request': GA.request(c)[:4000], 'model_answer': a[:2000], 'engine': [str(x)[:800] for x in e],
-                           'verdict': v, 'detail': str(d)[:600], 'occurrences': len(lst)},
+                           'verdict': v, 'detail': str(d)[:600], 'occurrences': len(lst), 'case': GA.case_to_json(c)},
                      '%s: %s | model %s | engine %s' % (v, c['vtl'][:150], a[:90], str(e[1:3])[:150]))
     if hist['agree'] < (0.6 * n_main):
         ck.unproved('correspondence:C03', 'only %d of %d cases could be compared: %s' % (hist['agree'], len(res), dict(hist)))
